@@ -530,7 +530,7 @@ class Walker:
         if isinstance(f, ast.Attribute) and isinstance(f.value, ast.Name) and f.value.id in ("self", "cls") and self.fi.cls is not None:
             target = self.index.lookup_method(self.fi.cls, f.attr)
         elif isinstance(f, ast.Name) and f.id not in self.env:
-            target = self.fi.module.functions.get(f.id)
+            target = self.index.resolve_function(self.fi.module, f.id)
         if target is None or target.node is self.fi.node:
             return None
         body = [s for s in target.node.body if not (isinstance(s, ast.Expr) and isinstance(s.value, ast.Constant))]
@@ -632,7 +632,7 @@ class Walker:
         skip = 0
         f = call.func
         if isinstance(f, ast.Name) and f.id not in self.env:
-            target = self.fi.module.functions.get(f.id)
+            target = self.index.resolve_function(self.fi.module, f.id)
         elif isinstance(f, ast.Attribute) and isinstance(f.value, ast.Name) and f.value.id == "self" and self.fi.cls is not None:
             target = self.index.lookup_method(self.fi.cls, f.attr)
             skip = 0 if target is not None and target.is_static else 1
@@ -679,7 +679,7 @@ class Walker:
         recv_ir = None
         if isinstance(f, ast.Name):
             # a module-level emitting helper of the same module: _update_bits(m, ...)
-            target = self.fi.module.functions.get(f.id) if f.id not in self.env else None
+            target = self.index.resolve_function(self.fi.module, f.id) if f.id not in self.env else None
             if target is None or any(isinstance(n, (ast.Yield, ast.YieldFrom)) for n in ast.walk(target.node)):
                 return False
         elif not isinstance(f, ast.Attribute):
